@@ -350,7 +350,15 @@ def oracle_genflow(case):
                             return f"event {i} particle {j}: derived mass {m!r}, sqrt(E^2-p^2) = {math.sqrt(m2)!r}"
                         if p.charge != 1:
                             return f"event {i} particle {j}: derived charge {p.charge!r} for pdg 211"
-        return None
+            rows = [[body[i * mult + j].split(" ") for j in range(mult)] for i in range(nev)]
+            labels = [c[0] for c in want_counts]
+            try:
+                pl = o.particle_list()
+            except Exception as e:
+                return f"particle_list() raises {type(e).__name__}: {e}"
+            if case["family"] == "jet":
+                return J.check_particle_list(pl, nev, rows, labels)
+            return G.check_particle_list(pl, nev, rows, cols, labels)
     finally:
         try:
             os.remove(path)
@@ -407,6 +415,49 @@ def gen_case(rng):
     return {"kind": "oscar", "doc": d, "text": G.render(d)}
 
 
+def boundary_cases(rng, quick):
+    """file shapes the random documents reach rarely or never (property oracle only): Oscar-family files without the final
+    newline, a single event without particles, only empty events, empty first/last event, one long event, ASCII files with all
+    22 columns in documented / reversed order and with a single column of each kind, JETSCAPE files of the same shapes"""
+    out = []
+    def osc(fmt, sizes, nl=True, cols=None):
+        d = G.gen_doc(rng, fmt=fmt)
+        if cols is not None:
+            d["cols"] = list(cols)
+            d["head"] = ["#!ASCII particle_lists " + " ".join(cols), "# Units: " + " ".join("none" for _ in cols), "# SMASH-3.1"]
+        kinds = "".join(G.ASCII_KIND[c] for c in d["cols"]) if fmt == "ASCII" else G.COLS[fmt]
+        d["events"] = [{"rows": [[G.tok_for(k, rng) for k in kinds] for _ in range(m)], "b": f"{i}.{rng.choice([125, 250, 500])}",
+                        "yn": rng.choice(["yes", "no"])} for i, m in enumerate(sizes)]
+        d["final_newline"] = nl
+        out.append({"kind": "oscar", "doc": d, "text": G.render(d)})
+    def jet(ptype, sep, sizes, nl=True):
+        d = J.gen_doc(rng, ptype=ptype, max_events=1, max_mult=1)        # trailer values; the events are replaced
+        evs = []
+        for m in sizes:
+            rows = []
+            while len(rows) < m:
+                rows += [r for e in J.gen_doc(rng, ptype=ptype)["events"] for r in e["rows"]]
+            evs.append({"rows": rows[:m], "weight": "1", "ep": "0"})
+        d["events"], d["sep"], d["final_newline"] = evs, sep, nl
+        out.append({"kind": "jet", "doc": d, "text": J.render(d)})
+    shapes = [[0], [1], [0, 0, 0], [0, 2, 0], [2, 0], [0, 3]]
+    for fmt in ("Oscar2013", "Oscar2013Extended", "ASCII"):
+        for sizes in shapes:
+            osc(fmt, sizes, nl=rng.random() < 0.5)
+        osc(fmt, [rng.randint(0, 3) for _ in range(rng.randint(1, 4))], nl=False)
+    osc("Oscar2013", [300 if quick else 3000, 1])
+    names = list(G.ASCII_KIND)
+    osc("ASCII", [2, 0, 1], cols=names)
+    osc("ASCII", [1, 2], cols=names[::-1])
+    for c in ("pdg", "ID", "charge", "t", "strangeness"):
+        osc("ASCII", [1, 0, 2], cols=[c], nl=rng.random() < 0.5)
+    for ptype in ("hadron", "parton"):
+        for sizes in shapes:
+            jet(ptype, rng.choice(["\t", " "]), sizes, nl=rng.random() < 0.5)
+    jet("hadron", "\t", [300 if quick else 3000, 1])
+    return out
+
+
 def correspondence(ctx, model_ok=True):
     n = 200 if ctx.quick else 3000
     cases = []
@@ -444,6 +495,13 @@ def correspondence(ctx, model_ok=True):
         msg = oracle(c)
         if msg:
             out["failures"].append(Failure({"kind": c["kind"], "doc": c["doc"]}, "property oracle", on_impl=msg))
+    extra = boundary_cases(ctx.rng, ctx.quick)
+    out["evaluations"] += len(extra)
+    out["distribution"]["boundary_shapes"] = len(extra)
+    for c in extra:
+        msg = oracle(c)
+        if msg:
+            out["failures"].append(Failure({"kind": c["kind"], "doc": c["doc"]}, "property oracle (boundary file shape)", on_impl=msg))
     genflow_stream(ctx, out)
     return out
 
